@@ -3,7 +3,7 @@ from checks import symgen, refqr, refmicro, refrmqr, gf256
 from checks.refqr import bits_of
 
 ID = 'C07'
-PROP_MODULES = ['QRV.Props.C07', 'QRV.Props.C06Micro', 'QRV.Props.C06RMQR', 'QRV.Props.C07RMQR', 'QRV.Props.C07Micro', 'QRV.Props.C01MicroWeak']
+PROP_MODULES = ['QRV.Props.C07', 'QRV.Props.C06Micro', 'QRV.Props.C06RMQR', 'QRV.Props.C07RMQR', 'QRV.Props.C07Micro', 'QRV.Props.C01MicroWeak', 'QRV.Props.C07Overfull']
 RULE = ('structurally valid symbols (correct function patterns, format information and Reed-Solomon parity, built by the independent reference encoder) whose DATA codewords are '
         'arbitrary: random bytes; bit streams made of every mode-indicator value, count fields at / below / beyond what the remaining codewords hold, digit groups >= 1000/100/10, '
         'alphanumeric pairs >= 2025, kanji codes that are unassigned or beyond the table, segments truncated in the middle of a character, valid segment lists followed by garbage. '
